@@ -305,16 +305,19 @@ func runC03b(c c03bCase, o *vfutil.Obs) *vfutil.Failure {
 			first := true
 			for {
 				genBefore := atomic.LoadInt64(&roGen)
+				newestBefore := l.NewestOffset()
 				hwBefore := l.HighWatermark()
 				m, off, _, _, err := r.ReadMessage(ctx, hb)
 				if err != nil {
 					if pkgErrors.Cause(err) == ErrCommitLogReadonly {
 						hwAfter := l.HighWatermark()
 						newest := l.NewestOffset()
-						if g := atomic.LoadInt64(&roGen); g == genBefore && g%2 == 0 && l.IsReadonly() && hwAfter < newest {
-							// the log was read-only during the whole call (so its end did
-							// not move) and still has uncommitted messages: the reader
-							// must keep waiting for the HW instead of ending
+						if g := atomic.LoadInt64(&roGen); g == genBefore && g%2 == 0 && l.IsReadonly() && newestBefore == newest && hwAfter < newest {
+							// the log was read-only during the whole call, its end did not
+							// move (an append that passed the read-only check before the
+							// switch can still land afterwards) and it has uncommitted
+							// messages: the reader must keep waiting for the HW instead of
+							// ending
 							fail.set(vfutil.Failf("C03/ended-instead-of-waiting", "reader %d: got end-of-readonly-log at next offset %d with hw %d below the log end %d", i, st.next, hwAfter, newest))
 							return
 						}
